@@ -15,13 +15,43 @@ pub struct SatWorld;
 pub const K_CLAUSE: u8 = 0;
 pub const K_DECIDE: u8 = 1;
 pub const K_POP: u8 = 2;
+/// up to four more literals for the clause defined by the closest preceding K_CLAUSE
+pub const K_CLAUSE_EXT: u8 = 20;
+pub const MAXV: usize = 10;
 
 /// clause as (var, polarity) list, from an op's encoded literals
 pub fn clause_of(op: &Op) -> Vec<(usize, bool)> {
     op.a.iter()
         .filter(|l| **l != 0)
-        .map(|l| ((l.unsigned_abs() as usize - 1) % 6, *l > 0))
+        .map(|l| ((l.unsigned_abs() as usize - 1) % 12, *l > 0))
         .collect()
+}
+
+/// all clauses of a plan (K_CLAUSE, optionally extended by following K_CLAUSE_EXT operations), variables < nv_cap
+pub fn clauses_of_plan(ops: &[Op], nv_cap: usize) -> Vec<Vec<(usize, bool)>> {
+    let mut out: Vec<Vec<(usize, bool)>> = Vec::new();
+    for op in ops {
+        if op.k == K_CLAUSE {
+            out.push(clause_of(op).into_iter().map(|(v, p)| (v % nv_cap, p)).collect());
+        } else if op.k == K_CLAUSE_EXT {
+            if let Some(last) = out.last_mut() {
+                last.extend(clause_of(op).into_iter().map(|(v, p)| (v % nv_cap, p)));
+            }
+        }
+    }
+    out
+}
+
+/// clause operations for a random CNF: mostly short clauses, sometimes long ones
+pub fn gen_cnf_ops(c: &mut Rng, o: &mut Rng, nv: u64, max_clauses: u64) -> Vec<Op> {
+    let mut ops = Vec::new();
+    for _ in 0..c.below(max_clauses + 1) {
+        ops.push(Op { c: 0, k: K_CLAUSE, a: gen_clause(o, nv) });
+        if o.below(8) == 0 {
+            ops.push(Op { c: 0, k: K_CLAUSE_EXT, a: gen_clause(o, nv) });
+        }
+    }
+    ops
 }
 
 pub fn gen_clause(o: &mut Rng, nv: u64) -> [i64; 4] {
@@ -69,14 +99,12 @@ impl World for SatWorld {
         let mut c = Rng::stream(run_seed, "config");
         let mut o = Rng::stream(run_seed, "ops");
         let mut s = Rng::stream(run_seed, "schedule");
-        let nv = 1 + c.below(6);
+        // mostly up to 6 variables / 8 clauses; one run in four goes up to 10 variables / 14 clauses
+        let wide = c.below(4) == 0;
+        let nv = if wide { 5 + c.below(6) } else { 1 + c.below(6) };
         cfg.insert("nv".into(), nv as i64);
         cfg.insert("arena".into(), 1);
-        let ncl = c.below(9);
-        let mut ops = Vec::new();
-        for _ in 0..ncl {
-            ops.push(Op { c: 0, k: K_CLAUSE, a: gen_clause(&mut o, nv) });
-        }
+        let mut ops = gen_cnf_ops(&mut c, &mut o, nv, if wide { 14 } else { 8 });
         let ncallers = 1 + c.below(3);
         let pop_w = 15 + c.below(40);
         let len = 1 + o.below(if thorough { 120 } else { 50 });
@@ -85,7 +113,7 @@ impl World for SatWorld {
             if o.below(100) < pop_w {
                 ops.push(Op { c: caller, k: K_POP, a: [0; 4] });
             } else {
-                ops.push(Op { c: caller, k: K_DECIDE, a: [o.below(8) as i64, o.below(2) as i64, 0, 0] });
+                ops.push(Op { c: caller, k: K_DECIDE, a: [o.below(12) as i64, o.below(2) as i64, 0, 0] });
             }
         }
         Plan {
@@ -100,7 +128,7 @@ impl World for SatWorld {
 
     fn execute(&self, plan: &Plan, ctx: &mut Ctx) -> R {
         ctx.cur_prop = "C09";
-        let clauses_in: Vec<Vec<(usize, bool)>> = plan.ops.iter().filter(|o| o.k == K_CLAUSE).map(clause_of).collect();
+        let clauses_in: Vec<Vec<(usize, bool)>> = clauses_of_plan(&plan.ops, MAXV);
         let lits: Vec<Vec<Literal>> = clauses_in
             .iter()
             .map(|c| c.iter().map(|(v, p)| Literal::new(VarLabel::new(*v as u64), *p)).collect())
@@ -356,7 +384,7 @@ impl World for SatWorld {
 
     fn render_op(&self, op: &Op) -> String {
         match op.k {
-            K_CLAUSE => format!("clause {:?}", clause_of(op).iter().map(|(v, p)| format!("{}x{}", if *p { "" } else { "!" }, v)).collect::<Vec<_>>()),
+            K_CLAUSE | K_CLAUSE_EXT => format!("{} {:?}", if op.k == K_CLAUSE { "clause" } else { "  ...more literals" }, clause_of(op).iter().map(|(v, p)| format!("{}x{}", if *p { "" } else { "!" }, v % MAXV)).collect::<Vec<_>>()),
             K_DECIDE => format!("c{}: decide(x{} = {})", op.c, op.a[0], op.a[1] & 1 == 1),
             _ => format!("c{}: pop", op.c),
         }
